@@ -28,14 +28,21 @@ def run(tier: str, keep: bool = False) -> int:
                                     POSITIVE_ACK_LIMIT_REACHED=a) for a, b, c in itertools.product(CODES, CODES, CODES)) + "}"
     famD1 = f'Numbered({{ [SoloBase(1, 1, 2) EXCEPT !.mode = "UNACK", !.fhD = f, !.closure = c] : f \\in {tablesD}, c \\in BOOLEAN }})'
     r.solo("dstUnack", "D", famD1, ["fd", "fdodd", "wrej", "eof", "eofodd", "tick", "poll"], 4 if q else 5, props, pre=[["md"]],
-           limit=7000 if q else 250000)
+           limit=7000 if q else 60000)
     famD2 = f'Numbered({{ [SoloBase(1, 1, 2) EXCEPT !.fhD = f, !.immNak = FALSE] : f \\in {tablesD} }})'
-    r.solo("dstAck", "D", famD2, ["fd", "fdodd", "eof", "eofodd", "tick", "poll"], 5 if q else 6, props, pre=[["md"]],
-           limit=7000 if q else 250000)
+    r.solo("dstAck", "D", famD2, ["fd", "fdodd", "eof", "eofodd", "tick", "poll"], 5, props, pre=[["md"]],
+           limit=7000 if q else 60000)
     # FILESTORE_REJECTION declared while the Metadata PDU is handled (create / truncate refused), first PDU or re-requested
     famD3 = ('Numbered({ [SoloBase(1, 1, 2) EXCEPT !.mode = m, !.dstShape = sh, !.dstOld = <<9, 9>>, !.closure = TRUE, !.fhD = [FhDefault EXCEPT '
              '!.FILESTORE_REJECTION = f]] : m \\in {"ACK", "UNACK"}, sh \\in {"file", "existing"}, f \\in {"ignore", "cancel", "abandon"} })')
-    r.solo("dstMdRej", "D", famD3, ["md", "mdwrej", "fd", "wrej", "eof", "poll", "tick"], 4 if q else 5, props, limit=5000 if q else 200000)
+    r.solo("dstMdRej", "D", famD3, ["md", "mdwrej", "fd", "wrej", "eof", "poll", "tick"], 4 if q else 5, props, limit=5000 if q else 60000)
+    # the fourth handler code, notice of suspension (a stub in the library: callback, transaction continues - but callers that
+    # test "!= IGNORE_ERROR" stop what they were doing): one table with it everywhere, both sides
+    sus = "[c \\in DOMAIN FhDefault |-> \"suspend\"]"
+    r.solo("dstSuspend", "D", f'Numbered({{ [SoloBase(1, 1, 2) EXCEPT !.mode = m, !.closure = TRUE, !.fhD = {sus}, !.immNak = FALSE] : m \\in {{"ACK", "UNACK"}} }})',
+           ["md", "mdwrej", "fd", "fdodd", "wrej", "eof", "eofodd", "tick", "poll"], 5 if q else 6, props, limit=3000 if q else 40000)
+    r.solo("srcSuspend", "S", f'Numbered({{ [SoloBase(1, 1, 1) EXCEPT !.mode = m, !.closure = TRUE, !.fhS = {sus}] : m \\in {{"ACK", "UNACK"}} }})',
+           ["poll", "tick", "cancel", "ack"], 8 if q else 9, props, pre=[["put"], ["poll"], ["poll"], ["poll"]])
     tablesS = "{" + ", ".join(table(POSITIVE_ACK_LIMIT_REACHED=a, CHECK_LIMIT_REACHED=b) for a, b in itertools.product(CODES, CODES)) + "}"
     famS = f'Numbered({{ [SoloBase(1, 1, 1) EXCEPT !.mode = m, !.closure = TRUE, !.fhS = f] : m \\in {{"ACK", "UNACK"}}, f \\in {tablesS} }})'
     r.solo("src", "S", famS, ["poll", "tick", "cancel", "ack"], 8 if q else 9, props, pre=[["put"], ["poll"], ["poll"], ["poll"]])
@@ -44,8 +51,8 @@ def run(tier: str, keep: bool = False) -> int:
     for _ in range(10 if q else 60):
         cfgs.append(dict(mode=rng.choice(["ACK", "UNACK"]), closure=rng.random() < 0.5, immNak=rng.random() < 0.5, segLen=1, ackLim=2, nakLim=2,
                          chkLim=2, file=[11, 12, 13][:rng.choice([1, 3])],
-                         fhS={**_fh(), **{c: rng.choice(CODES) for c in ("POSITIVE_ACK_LIMIT_REACHED", "CHECK_LIMIT_REACHED")}},
-                         fhD={**_fh(), **{c: rng.choice(CODES) for c in ("POSITIVE_ACK_LIMIT_REACHED", "NAK_LIMIT_REACHED", "CHECK_LIMIT_REACHED",
+                         fhS={**_fh(), **{c: rng.choice(CODES + ["suspend"]) for c in ("POSITIVE_ACK_LIMIT_REACHED", "CHECK_LIMIT_REACHED")}},
+                         fhD={**_fh(), **{c: rng.choice(CODES + ["suspend"]) for c in ("POSITIVE_ACK_LIMIT_REACHED", "NAK_LIMIT_REACHED", "CHECK_LIMIT_REACHED",
                                                                           "FILE_CHECKSUM_FAILURE", "FILE_SIZE_ERROR", "FILESTORE_REJECTION")}}))
     r.schedules("pairK2", cfgs_tla(cfgs), props, K=2, faults=["drop", "flip", "wrej"], limit=800 if q else 6000)
     r.schedules("silent", cfgs_tla(cfgs), props, K=0, cuts=["sd", "ds"], limit=400 if q else 4000)
